@@ -46,7 +46,7 @@ _REQUIRED = (["kind:" + k for k in _KINDS] + ["algo:" + a for a in ALGOS]
                 "unary-node", "qn-none", "qn-one", "qn-two", "multi-set-node-coupled", "library-auto-dummy",
                 "hand-made-dummy-root", "hand-made-dummy-internal", "hand-made-dummy-leaf", "shuffled-order",
                 "complex-class", "multi-dof-site", "kind:aux-space", "interleaved-same-site", "zero-factor-term", "one-term",
-                "units:tiny", "units:huge"])
+                "units:tiny", "units:huge", "kind:wide", "node-with-8-or-more-legs"])
 
 
 def plan(tier):
@@ -127,7 +127,7 @@ def decorate_terms(ctx, gm, terms):
     return out
 
 
-def choose_trees(ctx, basis, qn_mode):
+def choose_trees(ctx, basis, qn_mode, wide=False):
     """>= 3 trees with pairwise different shapes (child order included)."""
     from rv import trees
     rng = ctx.rng
@@ -137,6 +137,8 @@ def choose_trees(ctx, basis, qn_mode):
     mctdh_like = ["mctdh2", "mctdh3", "mctdh2-contract", "mctdh3-contract", "mctdh2-label", "mctdh3-label", "t3ns"]
     plain = ["linear", "binary", "random"]
     kinds = ["random", mctdh_like[int(rng.integers(0, len(mctdh_like)))]]
+    if wide:
+        kinds = ["wide", "wide", "linear"]
     while len(kinds) < want:
         pool = plain + mctdh_like
         kinds.append(pool[int(rng.integers(0, len(pool)))])
@@ -198,6 +200,8 @@ def classify_tree(ctx, kind, tree, desc, terms, dof2basis):
         ctx.cls("three-set-node")
     if f["max_arity"] >= 3:
         ctx.cls("arity-3")
+    if max(len(nd.children) + len(nd.basis_sets) for nd in tree.node_list) >= 8:
+        ctx.cls("node-with-8-or-more-legs")
     if f["unary"]:
         ctx.cls("unary-node")
     if f["mixed_dummy_set"]:
@@ -231,7 +235,13 @@ def run_case(ctx):
     from rv import trees
     from rv.case import _innermost_repo_frame
     rng = ctx.rng
-    gm = build_model(ctx)
+    wide = bool(rng.random() < 0.07)
+    if wide:
+        # eight or nine two-state sets: room for a node with eight and more legs (children + own basis sets)
+        gm = gen.long_chain(rng, 8, 8)
+        ctx.cls("many-basis-sets")
+    else:
+        gm = build_model(ctx)
     basis = gm.basis
     qn_mode = gm.desc["qn_mode"]
     ctx.cls("qn-" + qn_mode)
@@ -241,6 +251,9 @@ def run_case(ctx):
         ctx.cls("input-dummy-basis-set")
     want_complex = bool(rng.random() < 0.12)
     terms = build_terms(ctx, gm, want_complex)
+    if wide:
+        # (a node tensor with eight operator legs has prod(bond dims) entries: few terms keep the pure-Python assembly short)
+        terms = terms[:int(rng.integers(3, 9))]
     nz_terms = [t for t in terms if t.factor != 0]
     if not nz_terms:
         ctx.refuse("no terms")
@@ -261,7 +274,7 @@ def run_case(ctx):
     if distinct_terms < len(keys):
         ctx.cls("duplicate-terms")
 
-    chosen = choose_trees(ctx, basis, qn_mode)
+    chosen = choose_trees(ctx, basis, qn_mode, wide=wide)
     if is_complex:
         chosen = chosen[:2]
     ctx.describe({"model": gm.describe(), "terms": gen.terms_describe(terms, 40),
